@@ -33,6 +33,15 @@ theorem roundUs_shift {a b : Int} (h : (a - b) % 10 = 0) (hb : b % 10 ≠ 5) :
   have : a % 10 = b % 10 := by omega
   split <;> split <;> (try split) <;> (try split) <;> omega
 
+/-- two tick counts that differ by a whole *even* number of microseconds round alike, ties included (half to even looks at
+the parity of the microsecond) -/
+theorem roundUs_shift20 {a b : Int} (h : (a - b) % 20 = 0) : 10 * roundUs a - a = 10 * roundUs b - b := by
+  unfold roundUs
+  simp only
+  have h1 : a % 10 = b % 10 := by omega
+  have h2 : (a / 10) % 2 = (b / 10) % 2 := by omega
+  split <;> split <;> (try split) <;> (try split) <;> (try split) <;> (try split) <;> omega
+
 /-! ### the constructor -/
 
 theorem mk_ok {cfg : Cfg} {env : Env} {sc : Nat} {d s : Int} {x : Date} (h : mk cfg env sc d s = .ok x) :
@@ -136,6 +145,27 @@ theorem ofDatetime_spec {cfg : Cfg} {env : Env} {sc : Nat} {us : Int} {x : Date}
   rw [hi]
   simp only [D, DUS]
   omega
+
+/-- the `_offset` of a constructed date is `scale.offset` evaluated **at the date's own clock reading** `inst − _offset`
+(the `mjd` argument of the constructor) with the date's own record -/
+theorem mk_off_at {cfg : Cfg} {env : Env} {sc : Nat} {d s : Int} {x : Date} (h : mk cfg env sc d s = .ok x) :
+    offset cfg env x.scale cfg.ref (x.inst - x.off) x.eop = .ok x.off := by
+  obtain ⟨_, hs, hi, _⟩ := mk_spec h
+  obtain ⟨eop, off, _, ho, rfl⟩ := mk_ok h
+  have : (Date.inst ⟨d + (s + off) / D, (s + off) % D, off, sc, eop⟩) - off = d * D + s := by
+    simp only at hi; omega
+  simp only at this ⊢
+  rw [this]; exact ho
+
+theorem ofDatetime_off_at {cfg : Cfg} {env : Env} {sc : Nat} {us : Int} {x : Date} (h : ofDatetime cfg env sc us = .ok x) :
+    offset cfg env x.scale cfg.ref (x.inst - x.off) x.eop = .ok x.off := mk_off_at h
+
+theorem ofDatetime_eop {cfg : Cfg} {env : Env} {sc : Nat} {us : Int} {x : Date} (h : ofDatetime cfg env sc us = .ok x) :
+    eopFor cfg env sc (10 * us) = .ok x.eop := by
+  unfold ofDatetime at h
+  obtain ⟨_, _, _, he⟩ := mk_spec h
+  have : us / DUS * D + us % DUS * 10 = 10 * us := by simp only [D, DUS]; omega
+  rwa [this] at he
 
 /-- `_convert_to_scale` recovers the clock reading of the date's own scale: `inst − offset`, split in day and ticks -/
 theorem toScale_spec (x : Date) (h0 : 0 ≤ x.s) (h1 : x.s < D) :
